@@ -261,7 +261,6 @@ type (the literal then being of exactly the type's kind), gives the document `{"
 and in stored form; and its wire form is the document itself. -/
 theorem example_union_roundtrip_partial (E : Ext) (C : CExt) (us : List CUnion) (env : Env) (cu : CUnion) (ud : UnionDef)
     (tag : String) (v : ExVal) (t : CTag)
-    (hpat : ∀ p s, C.prefixMatch p s = true → E.patMatch p s = true)
     (hud : unionDefOfC cu = some ud) (henv : env.union? cu.cls = some ud)
     (hpub : ∀ t ∈ cu.allTags, t.omitted = none) (hnd : (cu.allTags.map (·.name)).Nodup)
     (ht : cu.allTags.find? (·.name == tag) = some t)
@@ -340,7 +339,7 @@ theorem example_union_roundtrip_partial (E : Ext) (C : CExt) (us : List CUnion) 
         rcases hshape with h | h
         · rw [h] at hk; exact hk
         · rw [h] at hk; cases l <;> simp [exactKind] at hn hk ⊢ <;> exact hk
-      have sc := base_step E C us env hpat t0 vt0 l hb hvt0 hcl' hk'
+      have sc := base_step E C us env t0 vt0 l hb hvt0 hcl' hk'
       have sc1 := sc fl
       have sc0 := sc {}
       rw [← hvteq] at sc1
@@ -397,7 +396,7 @@ example : ∃ kvs payload, unionExampleDoc rtTint [("green", .lit (.int 5))] = s
     normalB rtUEnv (.union {} rtTint.cls) (.union rtTint.cls "green" payload) = true ∧
     (rtTint.cls ∈ rtTint.chain.map (·.1) → validB rtE rtUEnv (.union {} rtTint.cls) (.union rtTint.cls "green" payload) = true) :=
   example_union_roundtrip_partial rtE rtC [] rtUEnv rtTint ((unionDefOfC rtTint).getD default) "green" (.lit (.int 5))
-    { name := "green", ty := .int "Int32" none none } (fun _ _ h => h) rfl rfl (by decide) (by decide) rfl
+    { name := "green", ty := .int "Int32" none none } rfl rfl (by decide) (by decide) rfl
     (Or.inr rfl) (by decide) (by decide) (by intro _ l h; cases h; rfl) rfl
 
 end StoneVerif.IrCheck
